@@ -329,6 +329,11 @@ func runBinary(dir, file string, strict bool, schema parser.Schema, names model.
 				res.BadOut = "JSON report does not parse: " + err.Error()
 			}
 			for _, r := range reps {
+				for k := 1; k < len(r.Lines); k++ {
+					if r.Lines[k] != r.Lines[k-1]+1 {
+						res.BadOut = fmt.Sprintf("JSON report `lines` is not a strictly increasing run of consecutive lines: %v", r.Lines)
+					}
+				}
 				if len(r.Lines) > 0 {
 					res.JSONLines = append(res.JSONLines, [2]int{r.Lines[0], r.Lines[len(r.Lines)-1]})
 				} else {
